@@ -8,6 +8,7 @@ import (
 	"regexp"
 	"sort"
 	"strings"
+	"sync/atomic"
 
 	"go.flow.arcalot.io/pluginsdk/schema"
 	"verif/harness/sup"
@@ -48,6 +49,48 @@ func (in *instance) argFor(op, tok string, m flat) (any, error) {
 	switch in.kind {
 	case "steps":
 		return nil, nil // the input of the step / signal is fixed (callStep)
+	case "listarg":
+		// same_type: a container of exactly the Go type the result has; its elements are raw (ints of other widths,
+		// maps without the defaults / with the discriminator); *_bad: the last element is refused
+		bad := tok == "same_type_bad"
+		switch in.ckind {
+		case "list_oneof":
+			items := []any{map[string]any{discField: "a"}, map[string]any{discField: "b", "m": int(1)}}
+			if bad {
+				items = append(items, map[string]any{discField: "a", "n": int(100)})
+			}
+			if tok == "other_type" {
+				return []map[string]any{{discField: "a"}}, nil
+			}
+			return items, nil
+		case "list_any":
+			items := []any{int(1), float32(1.5), map[string]any{"k": int(1)}}
+			if bad {
+				items = append(items, struct{ X int }{1})
+			}
+			if tok == "other_type" {
+				return []int{1, 2}, nil
+			}
+			return items, nil
+		case "list_objmap":
+			if tok == "other_type" {
+				return []any{map[string]any{"t": int(1)}}, nil
+			}
+			items := []map[string]any{{"t": int(1)}, {}}
+			if bad {
+				items = append(items, map[string]any{"n": int(100)})
+			}
+			return items, nil
+		case "map_objmap":
+			if tok == "other_type" {
+				return map[any]any{"k": map[string]any{"t": int(1)}}, nil
+			}
+			items := map[string]map[string]any{"k": {"t": int(1)}, "l": {}}
+			if bad {
+				items["z"] = map[string]any{"n": int(100)}
+			}
+			return items, nil
+		}
 	case "objreq":
 		// root{a REQUIRED, b..e}; the partial arguments leave a out and supply b
 		switch tok {
@@ -500,7 +543,7 @@ func (in *instance) callWith(op, tok string, m flat, arg any, shared bool) (o ob
 			}
 			cur = mp["next"]
 		}
-	case "compat2", "anylist", "objreq":
+	case "compat2", "anylist", "objreq", "listarg":
 		// verdict only
 	case "disabled":
 		o.N = 1
@@ -707,6 +750,10 @@ func errKey(err error) (string, int) {
 
 // callStep issues a step or signal call on the callable schema; tok is the run ID.
 func (in *instance) callStep(op, run string) (any, error) {
+	if in.origin == "plain" {
+		// steps without signals: every call is a run of its own (distinct run IDs, also between goroutines)
+		run = fmt.Sprintf("%s-%d", run, atomic.AddInt64(&in.runSeq, 1))
+	}
 	ctx := stepCtx(run)
 	if op == "signal" {
 		return nil, in.callable.CallSignal(ctx, run, "s", "sig", map[string]any{"x": 1})
